@@ -11,7 +11,11 @@ Adv(s) == s.alg \in Range(s.advertised)
 Valid(s) == s.corrupt \notin {"truncate", "flip"} /\ s.alg \in {1, 2, 3}
 SameLen(s) == s.decl_delta = 0 /\ ~s.decl_huge
 Same(s) == s.corrupt # "other"
-Allowed(s) == IF ~Adv(s) THEN {"bad_certificate"}
+\* "trailing": a complete valid stream followed by foreign bytes - the property does not say whether the message counts as a
+\* valid encoding, so both accepting the certificate and aborting are allowed for that handshake (what must not happen is that
+\* it influences another handshake: the sequential pass judges every following handshake by its own scenario)
+Allowed(s) == IF s.corrupt = "trailing" /\ Adv(s) THEN {"accept", "abort", "bad_certificate"}
+              ELSE IF ~Adv(s) THEN {"bad_certificate"}
               ELSE IF Valid(s) /\ ~SameLen(s) THEN {"bad_certificate"}
               ELSE IF ~Valid(s) \/ ~Same(s) THEN {"abort", "bad_certificate"}
               ELSE {"accept"}
